@@ -216,16 +216,39 @@ def cases(draw):
 
 def expected_spec(sp):
     ids = {}
+    scope_of = {}
+
+    def scopes(s, inherited):
+        sc = dict(inherited)
+        sc.update(s.get("ns", {}))
+        scope_of[id(s)] = sc
+        for c in s.get("k", []):
+            scopes(c, sc)
+    scopes(sp, {})
     for _, s in treegen.spec_nodes(sp):
         if "id" in s.get("a", {}):
             ids[s["a"]["id"]] = s
+
+    def with_scope(x, sc):
+        """a deep copy keeps the bindings the source node had, also those it inherited where it stood"""
+        y = treegen._copy(x)
+
+        def fix(node, inherited):
+            m = dict(inherited)
+            m.update(node.get("ns", {}))
+            if m:
+                node["ns"] = m
+            for c in node.get("k", []):
+                fix(c, m)
+        fix(y, sc)
+        return y
 
     def go(s):
         out = {k: v for k, v in s.items() if k != "k"}
         kids = []
         for c in s.get("k", []):
             if c["n"] == REF:
-                kids.extend(treegen._copy(x) for x in ids[c["c"]].get("k", []))
+                kids.extend(with_scope(x, scope_of[id(ids[c["c"]])]) for x in ids[c["c"]].get("k", []))
             else:
                 kids.append(go(c))
         if kids:
